@@ -39,6 +39,7 @@ def translate(ctx):
     ok_all = True
     jobs = [('SolverGen.v', gen_C05.gen_dense, 'SolverBridge.v', 'pymoto/solvers/dense.py + sparse.py: solve() terms'),
             ('CGGen.v', gen_C05.gen_cg, 'CGBridge.v', 'pymoto/solvers/iterative.py: CG loop body'),
+            ('CGExitGen.v', gen_C05.gen_cg_exit, 'CGExitBridge.v', 'pymoto/solvers/iterative.py: CG convergence measure (per column, zero columns absolute)'),
             ('AutoGen.v', gen_C05.gen_auto, 'AutoBridge.v', 'pymoto/solvers/auto_determine.py: decision procedure'),
             ('ChecksGen.v', gen_C05.gen_checks, 'ChecksBridge.v', 'pymoto/solvers/matrix_checks.py: matrix predicates, every container branch')]
     for gname, fn, bname, what in jobs:
@@ -842,20 +843,33 @@ def cg_sweep(ctx, pym):
         warned = any('Maximum iterations' in str(m.message) for m in w)
         Ao = opmat(A, t)
         r = Ao @ (x.reshape(x.shape[0], -1)) - b.reshape(b.shape[0], -1)
-        rel = np.linalg.norm(r, axis=0) / np.linalg.norm(b.reshape(b.shape[0], -1), axis=0)
+        # per column, relative to |b_j|; a zero column (solution zero) is measured absolutely (Model/CGExit.v)
+        bn = np.linalg.norm(b.reshape(b.shape[0], -1), axis=0)
+        nzero = int(np.sum(bn == 0))
+        ctx.count('cg:zero columns in b:' + ('none' if nzero == 0 else 'all' if nzero == bn.size else 'some'))
+        rel = np.linalg.norm(r, axis=0) / np.where(bn == 0, 1.0, bn)
         want_c = np.iscomplexobj(Ao) or np.iscomplexobj(b)
-        if x.shape != b.shape or (x.dtype.kind == 'c') != want_c:
+        if nzero == bn.size and x0 is None and x.shape == b.shape and (not np.all(np.isfinite(x)) or np.any(x != 0)):
+            # C05_cg_zero_rhs: zero right-hand side without initial guess returns exactly zero
+            ctx.violation('impl-violates', 'CG.solve', 'zero right-hand side without initial guess returns x = 0', cls, replay,
+                          expected='zeros', got=x.tolist().__repr__()[:500])
+        elif x.shape != b.shape or (x.dtype.kind == 'c') != want_c:
             ctx.violation('impl-violates', 'CG.solve', 'x has the shape and dtype class of b', cls, replay, expected=str(b.shape), got=str(x.shape) + str(x.dtype))
-        elif warned or not np.all(rel <= 10 * tol):
+        elif warned or not np.all(np.isfinite(x)) or not np.all(rel <= 10 * tol):
             ctx.violation('impl-violates', 'CG.solve', '||op_trans(A) x - b|| <= 10 tol ||b|| without max-iteration warning', cls,
                           replay, expected=f'<= {10 * tol}', got=rel.tolist().__repr__())
 
     def rhs(n, kind, cplx):
-        # CG's exit test is relative to ||b|| per column: a zero column is outside its domain (tval = inf/nan)
-        while True:
-            b = lc.gen_rhs(rng, n, kind, cplx)
-            if np.all(np.any(b.reshape(n, -1) != 0, axis=0)):
-                return b
+        return lc.gen_rhs(rng, n, kind, cplx)
+
+    def zero_rhs(n, zk, cplx):
+        """zero right-hand sides and blocks with an all-zero column: alone, first, middle, last"""
+        c0, c1 = lc.gen_rhs(rng, n, 'vec', cplx), lc.gen_rhs(rng, n, 'vec', cplx)
+        z = np.zeros_like(c0)
+        return {'zero vec': z, 'zero col': z.reshape(n, 1), 'zero block': np.stack([z, z], axis=1),
+                'zero first': np.stack([z, c0, c1], axis=1), 'zero middle': np.stack([c0, z, c1], axis=1),
+                'zero last': np.stack([c0, c1, z], axis=1)}[zk]
+    ZERO_KINDS = ['zero vec', 'zero col', 'zero block', 'zero first', 'zero middle', 'zero last']
 
     def guess(b, cplx):
         n = b.shape[0]
@@ -930,7 +944,7 @@ def cg_sweep(ctx, pym):
                 if solver is None:
                     continue
                 for t in 'NTH':
-                    kinds = ['vec', 'col', 'blk', 'dup', 'wide']
+                    kinds = ['vec', 'col', 'blk', 'dup', 'wide', 'zero']
                     # a real matrix takes complex right-hand sides too (x gets the result type), unless the preconditioner is
                     # built on a real SuperLU factorisation (refuses complex data: malformed stream)
                     bc_ = cplx or (pl in ('Preconditioner', 'DampedJacobi') and rng.random() < 0.3)
@@ -960,6 +974,26 @@ def cg_sweep(ctx, pym):
                         b = rhs(n, kind, True)
                         ctx.count('cg:rhs:' + kind)
                         check(pl, As, solver, b, t, guess(b, True) if (si + len(kind) + 'NTH'.index(t)) % 2 else None, cls)
+
+    # ---- deliberately chosen: zero right-hand sides and all-zero columns (alone, first, middle, last), every
+    #      preconditioner, every trans, with and without initial guess, every run (F34)
+    for cplx in (False, True):
+        n = 5
+        A = lc.gen_matrix(rng, 'hpd' if cplx else 'spd', n, cplx)
+        for si, stor in enumerate(('dense', 'csc', SPARSE_FORMATS[1 + (ctx.seed + (2 if cplx else 5)) % 6])):
+            As = container(A, stor)
+            for pl, pc in pcs_for(stor):
+                cls = ('complex ' if cplx else 'real ') + 'HPD matrix, ' + stor + ', zero right-hand side / zero column'
+                solver = make(pl, cls, As, pc, dict(A=A.tolist().__repr__(), container=stor, preconditioner=pl), maxit=1000,
+                              restart=rng.choice([1, 3, 50]))
+                if solver is None:
+                    continue
+                for zi, zk in enumerate(ZERO_KINDS):
+                    for ti, t in enumerate('NTH'):
+                        b = zero_rhs(n, zk, cplx)
+                        ctx.count('cg:rhs:' + zk)
+                        for x0 in ((None, guess(b, cplx)) if zi < 3 else ((None,) if (zi + ti + si) % 2 else (guess(b, cplx),))):
+                            check(pl, As, solver, b, t, x0, cls)
 
     # ---- FE matrices on rectangular domains (nelx != nely != nelz): geometric multigrid with nested levels, and the
     #      one-level preconditioners; every sparse container
@@ -1001,6 +1035,8 @@ def cg_sweep(ctx, pym):
                 b[-1, :] = 1
             if kb == 3 and cb:
                 b[:, 2] = (1 + 2j) * b[:, 0] - 1j * b[:, 1]      # non-real dependency
+            if kb >= 2 and rng.random() < 0.25:
+                b[:, rng.randrange(kb)] = 0                      # an all-zero column
             if kb == 1 and rng.random() < 0.5:
                 b = b[:, 0].copy()
             return b
@@ -1019,6 +1055,8 @@ def cg_sweep(ctx, pym):
                     continue
                 for t in 'NTH':
                     b = fe_rhs()
+                    if cyc == 'V' and t == 'NTH'[fi % 3]:
+                        b = np.zeros_like(b)                     # zero right-hand side through the multigrid levels
                     x0 = None if rng.random() < 0.5 else np.array(np.random.default_rng(ctx.seed + nrun).standard_normal(b.shape))
                     if x0 is not None and kc:
                         x0 = x0 + 0j       # guess of the result type (narrower guesses: see the dedicated probe above)
